@@ -176,9 +176,19 @@ impl Receiver {
             fdt.1.update_expired_state(now);
         });
 
-        self.fdt_receivers.retain(|_, fdt| {
-            let state = fdt.state();
-            state == fdtreceiver::FDTState::Complete || state == fdtreceiver::FDTState::Receiving
+        // An FDT instance that stalls is released like any other stalled object
+        let object_timeout = self.config.object_timeout;
+        let instant_now = Instant::now();
+        self.fdt_receivers.retain(|_, fdt| match fdt.state() {
+            fdtreceiver::FDTState::Complete => true,
+            fdtreceiver::FDTState::Receiving => match (
+                object_timeout,
+                fdt.last_activity_duration_since(instant_now),
+            ) {
+                (Some(timeout), Some(duration)) => !duration.gt(&timeout),
+                _ => true,
+            },
+            _ => false,
         });
     }
 
